@@ -1,5 +1,8 @@
 //! Spill file read/write abstraction.
 
+#[cfg(grafeo_verif)]
+use grafeo_common::verif::fake_std as std;
+
 use std::fs::File;
 use std::io::{BufReader, BufWriter, Read, Seek, SeekFrom, Write};
 use std::path::{Path, PathBuf};
